@@ -58,7 +58,7 @@ theorem reopens (c : Cfg) (sh : Shared) (free : List Seg) (lives : List Ext) (m 
     (hcap : match o.cap with
       | some n => sh.st.allocated ≤ n ∧ n + 8192 ≤ TWO32
       | none => (sh.st.cap + tail.size) + 8192 ≤ TWO32)
-    (hr : o.sync = true → 1 ≤ o.retries ∧ o.retries ≤ 255) :
+    (hr : o.sync = true → o.retries ≤ 255) :
     ∃ free' r fs',
       (free' = free ∨ free' = insertSeg c.kind (relSeg m.memOff m.memSize) free) ∧
       openWritable o false
@@ -79,7 +79,7 @@ theorem reopened_later_ops_terminate (c : Cfg) (sh : Shared) (free : List Seg) (
     (hcap : match o.cap with
       | some n => sh.st.allocated ≤ n ∧ n + 8192 ≤ TWO32
       | none => (sh.st.cap + tail.size) + 8192 ≤ TWO32)
-    (hr : o.sync = true → 1 ≤ o.retries ∧ o.retries ≤ 255)
+    (hr : o.sync = true → o.retries ≤ 255)
     (n fuel' : Nat) (hn : n < TWO32) (hfuel' : free.length + 3 ≤ fuel') :
     ∃ free' r fs' res s',
       openWritable o false
